@@ -633,7 +633,9 @@ _replay_before_noncanon = replay
 
 def run(ctx):
     if ctx.search:
+        state = ctx.rng.getstate()      # the search streams that follow keep their own draws
         noncanon_loads(ctx)
+        ctx.rng.setstate(state)
         if ctx.failures:
             return
         _run_before_noncanon(ctx)
@@ -648,3 +650,13 @@ def replay(ctx, payload):
         noncanon_case(ctx, inp['noncanon'], int(inp['lenbits']), int(inp['len']), int(inp['value']), inp.get('pre', ''), inp.get('tail', ''), 'replay')
         return
     _replay_before_noncanon(ctx, payload)
+
+# theorems about every legal (also non-minimal) VarUInteger / VarInteger / Grams encoding: Properties/C06NonCanon.lean
+SPEC['property_modules'] = list(SPEC.get('property_modules', [])) + ['C06NonCanon']
+SPEC['manifest']['text'] += (' NON-CANONICAL LENGTHS: Properties/C06NonCanon.lean proves that load_var_uint / load_coins / load_var_int - the hand model '
+                             'and the methods regenerated from slice.py - return the value and leave exactly the continuation on EVERY legal encoding, i.e. for any '
+                             'len field with value < 2^(8 len) (signed: representable in len bytes), not only the minimal one the stores write '
+                             '(c06_var_uint_any_len, c06_coins_any_len, c06_var_int_any_len, c06_src_var_any_len); hand-built non-minimal encodings between a prefix '
+                             'and a tail are loaded on the library and on the model every run (value, tail intact, nothing left, references untouched).')
+SPEC['rule'] += ('; non-canonical var-ints: length prefix 2..5 bits x minimal byte class x len in {min, +1, +2, max, random}, boundary values, both signs, coins, '
+                 'zero with every len, hand-built between a prefix and a tail')
